@@ -975,10 +975,10 @@ func sgCheckOffer(r *sgRun, ps *sgPeerState, rec *sgRec, off *vfSDP, g *sgGenSta
 		}
 		var groups []string
 		groups = append(groups, vfAttrVals(s.Attrs, "ssrc-group")...)
-		for _, enc := range sender.GetParameters().Encodings {
-			if enc.RID != "" {
-				continue // simulcast layers are announced by rid
-			}
+		encs := sender.GetParameters().Encodings
+		// (simulcast layers: the property speaks of the SSRCs the sender will use, so every encoding's
+		// SSRC is looked for; the a=rid / a=simulcast lines are not part of it)
+		for _, enc := range encs {
 			if !ssrcs[fmt.Sprint(uint32(enc.SSRC))] {
 				r.viol("C12", "sender-ssrc-not-announced", fmt.Sprintf("%s: mid %q sender will use SSRC %d, section announces %v", who, mid, enc.SSRC, vfSortedKeys(ssrcs)))
 			}
